@@ -161,6 +161,56 @@ func containsSym(v value) bool {
 }
 
 // symConv handles conversions of symbolic values.
+// convNarrow is conv with Go's wrap-around for a symbolic integer converted
+// to a narrower integer type: when the path condition does not confine the
+// value to the destination's range, the result is the value modulo 2^width
+// (two's complement for signed types).
+func convNarrow(c *Ctx, tDst, tSrc types.Type, x value) value {
+	if s, ok := x.(SymInt); ok && c != nil {
+		if b, ok := tDst.Underlying().(*types.Basic); ok && b.Info()&types.IsInteger != 0 {
+			var w uint
+			signed := true
+			switch b.Kind() {
+			case types.Int8:
+				w = 8
+			case types.Int16:
+				w = 16
+			case types.Int32:
+				w = 32
+			case types.Uint8:
+				w, signed = 8, false
+			case types.Uint16:
+				w, signed = 16, false
+			case types.Uint32:
+				w, signed = 32, false
+			}
+			srcNarrow := false
+			if sb, ok := tSrc.Underlying().(*types.Basic); ok {
+				switch sb.Kind() {
+				case types.Int8, types.Uint8:
+					srcNarrow = w >= 8 && (sb.Kind() == types.Uint8) == !signed
+				}
+			}
+			if w != 0 && !srcNarrow && CellWidth(s.T) == 0 {
+				lo, hi := int64(0), int64(1)<<w-1
+				if signed {
+					lo, hi = -(int64(1) << (w - 1)), int64(1)<<(w-1)-1
+				}
+				if c.Valid(fmt.Sprintf("(and (>= %s %s) (<= %s %s))", s.T, intLit(lo), s.T, intLit(hi))) != Unsat {
+					m := intLit(int64(1) << w)
+					t := fmt.Sprintf("(mod %s %s)", s.T, m)
+					if signed {
+						h := intLit(int64(1) << (w - 1))
+						t = fmt.Sprintf("(- (mod (+ %s %s) %s) %s)", s.T, h, m, h)
+					}
+					return SymInt{T: t, Kind: b.Kind()}
+				}
+			}
+		}
+	}
+	return conv(tDst, tSrc, x)
+}
+
 func symConv(utDst, utSrc types.Type, x value) (value, bool) {
 	switch x := x.(type) {
 	case SymInt:
@@ -207,10 +257,25 @@ func CellWidth(t string) int {
 
 // ropeOffsets returns, for each part, its start offset, provided all parts
 // before it have a fixed length; ok=false from the first unknown length on.
-func ropeIndex(r *Rope, i int64) value {
+func ropeIndex(curCtx *Ctx, r *Rope, i int64) value {
 	off := int64(0)
 	for _, p := range r.Parts {
 		n, t := partLenTerm(p)
+		if t != "" && i == off && p.Kind == PCode && curCtx != nil && len(p.Lit) > 3 && p.Lit[0] == 'c' && p.Lit[2] == '_' && p.Lit[1] != 'T' {
+			// the first character of an identifier-coded atom: an
+			// uninterpreted function of the code, ranging over the characters an
+			// identifier can start with (codes.go)
+			c := curCtx
+			if c.FirstSeen == nil {
+				c.FirstSeen = map[string]bool{}
+			}
+			if !c.FirstSeen[p.Lit] {
+				c.FirstSeen[p.Lit] = true
+				f := "(cfirst " + p.Lit + ")"
+				c.Assume(fmt.Sprintf("(and (or (= %s 95) (and (>= %s 65) (<= %s 90)) (and (>= %s 97) (<= %s 122))) (=> (= %s 95) (>= (clen %s) 2)))", f, f, f, f, f, f, p.Lit))
+			}
+			return SymInt{T: "(cfirst " + p.Lit + ")", Kind: types.Uint8}
+		}
 		if t != "" {
 			panic(Inconclusive{"index into a string after a part of unknown length"})
 		}
